@@ -565,6 +565,21 @@ def closures_in(m: str, lo: int, hi: int):
     return res
 
 
+def split_params(t: str):
+    """split a closure parameter list on top-level commas"""
+    parts, depth, st = [], 0, 0
+    for i, c in enumerate(t):
+        if c in "(<[":
+            depth += 1
+        elif c in ")>]":
+            depth -= 1
+        elif c == "," and depth == 0:
+            parts.append(t[st:i])
+            st = i + 1
+    parts.append(t[st:])
+    return [x for x in parts if x.strip()]
+
+
 def closure_body_end(m: str, start: int) -> int:
     """body of an expression closure starting at `start` (after the head): ends at
     the first `,` or closing bracket at depth 0."""
@@ -755,6 +770,18 @@ def apply_fn_spec(text: str, spec: FnSpec, what: str, lost=None):
             lost.append("lost anchor: closure %d in %s (%d closures)" % (k, what, len(cls)))
             continue
         a, b = cls[k]
+        # the contract is written against parameter names; if the code renamed a closure parameter (same arity,
+        # plain identifier patterns) the names in the contract follow the code - the body tokens stay untouched
+        src_params = [x.strip() for x in body[a + 1:b - 1].split(",")] if b - a > 2 else []
+        src_names = [re.match(r"(?:mut\s+)?([A-Za-z_][A-Za-z0-9_]*)\s*(?::.*)?$", x, re.S) for x in src_params]
+        hm = re.match(r"\s*(?:move\s+)?\|(.*?)\|", head, re.S)
+        if hm and src_params and all(src_names):
+            dir_names = [re.match(r"\s*(?:mut\s+)?([A-Za-z_][A-Za-z0-9_]*)\s*:", x) for x in split_params(hm.group(1))]
+            if len(dir_names) == len(src_names) and all(dir_names):
+                for dn, sn in zip(dir_names, src_names):
+                    if dn.group(1) != sn.group(1):
+                        head = re.sub(r"\b%s\b" % re.escape(dn.group(1)), sn.group(1), head)
+                        ens = re.sub(r"\b%s\b" % re.escape(dn.group(1)), sn.group(1), ens)
         after = bm[b:]
         ws = len(after) - len(after.lstrip())
         if after.lstrip().startswith("{"):
@@ -1031,7 +1058,16 @@ def build_unit(unit_name: str, reach: bool = False, mutate=None, stub=None, nohi
             if oname in u.obligations:
                 u.obligations[oname]["lines"].append(ln_no)
             else:
-                u.obligations[oname] = {"props": props, "lines": [ln_no], "text": ln.split("//#")[0].strip(),
+                # full clause text: walk back over continuation lines (a clause starts after a line ending in `,`/`{`/`;`
+                # or a contract keyword)
+                st = ln_no
+                while st > 1 and ln_no - st < 12:
+                    prev = u.lines[st - 2].split("//")[0].rstrip()
+                    if prev == "" or re.search(r"(,|\{|;|\bensures|\brequires|\binvariant|\binvariant_except_break|\bdecreases)$", prev):
+                        break
+                    st -= 1
+                clause = " ".join(x.split("//#")[0].strip() for x in u.lines[st - 1:ln_no])
+                u.obligations[oname] = {"props": props, "lines": [ln_no], "text": clause[:600],
                                         "sufficient_only": bool(mm.group(3))}
     return u
 
@@ -1071,6 +1107,13 @@ def emit_plain(u: Unit, kind, fpath, name, opts):
         if not re.match(r"\s*pub\b", t):
             t = "pub " + t.lstrip()
             rw.note("R3v")
+        if opts.get("nodefaults") == "1":
+            # R20 (additive, opt-in): defaults of type parameters (`struct X<A, B = crate::Body>`) dropped.  A default
+            # only lets the type be named with fewer arguments; extracted code that does so no longer type-checks.
+            t2 = strip_param_defaults(t)
+            if t2 != t:
+                t = t2
+                rw.note("R20")
     if kind == "const":
         mm = re.match(r"(?s)(pub\s+)?const\s+([A-Z0-9_]+)\s*:\s*&\[u8\]\s*=\s*b\"(.*)\"\s*;", t)
         if mm:
@@ -1098,6 +1141,52 @@ def emit_plain(u: Unit, kind, fpath, name, opts):
     u.emit(pre + t, ("repo", what))
     u.items.append({"kind": kind, "name": name, "file": fpath, "rewrites": rw.applied,
                     "sha": hashlib.sha256(text.encode()).hexdigest()[:12]})
+
+
+def strip_param_defaults(t: str) -> str:
+    """`struct X<A, B = Ty, C = Ty2> ...` -> `struct X<A, B, C> ...` (first generic list of the item only)"""
+    mm = re.search(r"\b(?:struct|enum)\s+[A-Za-z_][A-Za-z0-9_]*\s*<", t)
+    if not mm:
+        return t
+    lo = mm.end() - 1
+    depth = 0
+    hi = -1
+    for i in range(lo, len(t)):
+        c = t[i]
+        if c == "<":
+            depth += 1
+        elif c == ">" and t[i - 1] != "-":
+            depth -= 1
+            if depth == 0:
+                hi = i
+                break
+    if hi < 0:
+        return t
+    parts, cur, depth = [], "", 0
+    for c in t[lo + 1:hi]:
+        if c in "<([":
+            depth += 1
+        elif c in ">)]":
+            depth -= 1
+        if c == "," and depth == 0:
+            parts.append(cur)
+            cur = ""
+        else:
+            cur += c
+    parts.append(cur)
+    out = []
+    for prm in parts:
+        d, k = 0, -1
+        for i, c in enumerate(prm):
+            if c in "<([":
+                d += 1
+            elif c in ">)]":
+                d -= 1
+            elif c == "=" and d == 0 and prm[i + 1:i + 2] != "=":
+                k = i
+                break
+        out.append(prm[:k].rstrip() if k >= 0 else prm)
+    return t[:lo + 1] + ",".join(out) + t[hi:]
 
 
 def pub_fields(t: str) -> str:
